@@ -300,7 +300,7 @@ class Ref:
             if n is None:
                 n = self.dflt.get("nseg")
             if lc is None and self.dflt:
-                lc = 0
+                lc = self.dflt.get("lc", 0)
             if lc == 1:
                 return self.expr_type_err(ex, "Path")
             if n is None or lc is None:
@@ -559,6 +559,8 @@ class Wit:
     def path(self, p, default="zp"):
         n = self.d(p + ".segments#len") or self.r.dflt.get("nseg") or 1
         lc = self.d(p + ".leading_colon#d")
+        if lc is None:
+            lc = self.r.dflt.get("lc")
         segs = []
         for i in range(n):
             a = self.d("%s.segments[%d].arguments#d" % (p, i))
@@ -721,7 +723,9 @@ def target_job(ck, prog, natbin, tg, quick):
             # complete the input in two different ways and replay each against the table
             bad_found = False
             undecided = False
-            for dflt in ({"expr": "Closure", "lit": "Int", "nseg": 2, "meta": 1}, {"expr": "Binary", "lit": "Bool", "nseg": 1, "meta": 2}):
+            replayed = 0
+            for dflt in ({"expr": "Closure", "lit": "Int", "nseg": 2, "meta": 1, "lc": 0}, {"expr": "Binary", "lit": "Bool", "nseg": 1, "meta": 2, "lc": 1},
+                         {"expr": "Binary", "lit": "Bool", "nseg": 1, "meta": 2, "lc": 0}):
                 ref2 = Ref(prog, l, tg, dflt)
                 exp2 = ref2.meta("item*")
                 if exp2 is None:
@@ -735,6 +739,7 @@ def target_job(ck, prog, natbin, tg, quick):
                 if wit2.bad or (isinstance(r, dict) and "parse_error" in r):
                     undecided = True
                     continue
+                replayed += 1
                 if exp2[0] in ("err", "synerr"):
                     agree = isinstance(r, dict) and "err" in r and len(r["err"]) == 1
                     m = msg_of(exp2)
@@ -747,6 +752,7 @@ def target_job(ck, prog, natbin, tg, quick):
                               {"property": "C13", "crate": "hsyn", "request": req2, "expected": repr(exp2)[:300], "observed": nat})
                     bad_found = True
                     break
+            undecided = undecided and replayed == 0
             if bad_found or undecided:
                 ck.obligations += 1
             if not bad_found:
